@@ -236,6 +236,15 @@ def consensus(
         super_reads[1].append(
             Variant(pos, allele=id_to_allele[pos][1 - best_allele], quality=score)
         )
+    # A variant that is already phased in the input keeps its phase if no read voted on it
+    # (the writer removes the phasing of every record it does not get a super-read allele for)
+    for pos, phase in phased.items():
+        if phase is None or pos in votes:
+            continue
+        components[pos] = phase.block_id - 1
+        quality = phase.quality if phase.quality is not None else 0
+        for super_read, allele in zip(super_reads, phase.phase):
+            super_read.append(Variant(pos, allele=allele, quality=quality))
     for read in super_reads:
         read.sort(key=lambda x: x.position)
     return super_reads, components
